@@ -1,7 +1,394 @@
-(** C14 - WebAuthn JSON parses leniently, re-parses when emitted, client data keeps order. (under construction) *)
-From PK Require Import Lib.Bytes Lib.Base64 Lib.Base64Facts Wire.Json Wire.JsonFacts.
+(** C14 - WebAuthn JSON parses leniently, re-parses when emitted, client data keeps order.
+    Statements only: each is closed by [exact] of a lemma proved in Lib/Base64Facts.v,
+    Wire/JsonFacts.v or Wire/JsonLaws.v.
+
+    Vocabulary (Wire/Json.v).  A document is a JSON *value* [json] (objects keep member order and
+    duplicates; serde_json's text layer is third party and is tied by the differential run).  A Rust
+    type is a schema [ty]; the schemas [r_...] / [s_...] are GENERATED from the struct and enum
+    definitions of passkey-types (gen/JsonSchema.v) with their serde attributes.  [de fl t v] is what
+    [T::deserialize] returns on [v] ([fl = Stream]: serde_json reading text; [fl = Cb]: the generic
+    value deserialiser every entry of an [ignore_unknown_(opt_)vec] list goes through);
+    [parse t v = to_opt (de Stream t v)] is [serde_json::from_str::<T>]; [ser t x] is the value
+    [serde_json::to_string] writes for the Rust value [x : rv].
+
+    [canon fl t v] (Wire/JsonLaws.v) is the canonical form of a document along a schema: every
+    [Bytes] member as an array of numbers, every timeout / algorithm identifier as a plain integer,
+    the members no field claims removed from every struct at every depth, entries of leniently read
+    lists that do not deserialise removed.  [c14_canonical_form] says a document and its canonical
+    form parse to the same result, so any two documents with the same canonical form parse alike;
+    the remaining theorems say what the canonical form does to the presentations the property names. *)
+From Coq Require Import ZArith.
+From PK Require Import Lib.Bytes Lib.Base64 Lib.Base64Facts Wire.Json Wire.JsonFacts Wire.JsonLaws Wire.gen.JsonSchema.
 Open Scope N_scope.
 
+(** * (1) Binary members: array of numbers, base64url, base64, padded or not *)
+
+(** the [Bytes] visitor on the five presentations the property names, either deserialiser flavour *)
+Theorem c14_bytes_presentations : forall fl b, bytes_ok b ->
+  de fl TBytes (json_of_bytes b) = Ok (RBytes b)
+  /\ de fl TBytes (JStr (b64url_encode b)) = Ok (RBytes b)
+  /\ de fl TBytes (JStr (b64url_encode b ++ b64_padding b)) = Ok (RBytes b)
+  /\ de fl TBytes (JStr (b64_encode b)) = Ok (RBytes b)
+  /\ de fl TBytes (JStr (b64_encode b ++ b64_padding b)) = Ok (RBytes b).
+Proof. exact bytes_presentations. Qed.
+Print Assumptions c14_bytes_presentations.
+
+(** ... and with any number of '=' appended ([bytes_pres]: array, either alphabet, k times '=') *)
+Theorem c14_bytes_any_presentation : forall fl b v, bytes_ok b -> bytes_pres b v -> de fl TBytes v = Ok (RBytes b).
+Proof. exact de_bytes_pres. Qed.
+Print Assumptions c14_bytes_any_presentation.
+
+(** [Bytes::try_from(&str)] tries base64url first and standard base64 second.  A string that both
+    decoders accept has ONE value, so neither alphabet can be mis-decoded by the other decoder ... *)
+Theorem c14_bytes_decoders_agree : forall s b b',
+  try_from_base64 s = Some b -> try_from_base64url s = Some b' -> b = b'.
+Proof. exact std_then_url_same. Qed.
+Print Assumptions c14_bytes_decoders_agree.
+
+(** ... and the order of the two attempts does not matter *)
+Theorem c14_bytes_attempt_order_irrelevant : forall s,
+  bytes_try_from_str s = match try_from_base64 s with Some b => Some b | None => try_from_base64url s end.
+Proof. exact bytes_try_from_order_irrelevant. Qed.
+Print Assumptions c14_bytes_attempt_order_irrelevant.
+
+(** a [Bytes] or [Option<Bytes>] member of ANY struct without flattened fields, in any presentation,
+    wherever it stands in the object and whatever else the object holds: same parse *)
+Theorem c14_bytes_member : forall fields k i f b v es1 es2,
+  plain_struct false fields = true ->
+  find_field (struct_canons Stream fields) 0 k = Some i -> nth_error fields i = Some f ->
+  f_dw f = DwNone -> (f_ty f = TBytes \/ f_ty f = TOpt TBytes) ->
+  bytes_ok b -> bytes_pres b v ->
+  parse (TStruct false fields) (JObj (es1 ++ (k, v) :: es2))
+  = parse (TStruct false fields) (JObj (es1 ++ (k, json_of_bytes b) :: es2)).
+Proof. exact bytes_member_presentations. Qed.
+Print Assumptions c14_bytes_member.
+
+(** * (2) Timeouts and algorithm identifiers: number, numeric string, integral float *)
+
+(** [StringOrNum<T>] for T = u32 and T = i64, every integer of the type; an integral float is a
+    literal m * 10^e that denotes n exactly ([dec_is]) *)
+Theorem c14_string_or_num : forall t n, fits t n = true ->
+  string_or_num t (JInt n) = Some n
+  /\ string_or_num t (JStr (dec_of_Z n)) = Some n
+  /\ (forall m e, dec_is m e n -> string_or_num t (JDec m e) = Some n).
+Proof. exact string_or_num_presentations. Qed.
+Print Assumptions c14_string_or_num.
+
+(** the [timeout] member of both option dictionaries, for every u32 and every presentation
+    ([num_pres]: 1800 | "1800" | a float literal of at most 15 significant digits equal to 1800) *)
+Theorem c14_timeout_presentations : forall t n v es1 es2,
+  t = r_PublicKeyCredentialCreationOptions \/ t = r_PublicKeyCredentialRequestOptions ->
+  fits NU32 n = true -> num_pres n v ->
+  parse t (JObj (es1 ++ (str_timeout, v) :: es2)) = parse t (JObj (es1 ++ (str_timeout, JInt n) :: es2)).
+Proof. exact options_timeout_presentations. Qed.
+Print Assumptions c14_timeout_presentations.
+
+(** the [alg] member of a credential parameter, every i64 (registered or not), both as serde_json
+    streams it and as the entry of pubKeyCredParams sees it *)
+Theorem c14_alg_presentations : forall fl n v es1 es2,
+  fits NI64 n = true -> num_pres n v ->
+  to_opt (de fl r_PublicKeyCredentialParameters (JObj (es1 ++ (str_alg, v) :: es2)))
+  = to_opt (de fl r_PublicKeyCredentialParameters (JObj (es1 ++ (str_alg, JInt n) :: es2))).
+Proof. exact parameters_alg_presentations. Qed.
+Print Assumptions c14_alg_presentations.
+
+(** the same for a [maybe_stringified] member of any struct *)
+Theorem c14_stringified_member : forall fields k i f n v es1 es2,
+  plain_struct false fields = true ->
+  find_field (struct_canons Stream fields) 0 k = Some i -> nth_error fields i = Some f ->
+  f_dw f = DwMaybeStringified -> fits NU32 n = true -> num_pres n v ->
+  parse (TStruct false fields) (JObj (es1 ++ (k, v) :: es2))
+  = parse (TStruct false fields) (JObj (es1 ++ (k, JInt n) :: es2)).
+Proof. exact stringified_member_presentations. Qed.
+Print Assumptions c14_stringified_member.
+
+(** * (3) Canonical form; unknown members; unknown enumeration strings *)
+
+(** every document of every schema parses like its canonical form, in both flavours *)
+Theorem c14_canonical_form : forall t v, parse t v = parse t (canon Stream t v).
+Proof. exact canon_parse. Qed.
+Print Assumptions c14_canonical_form.
+
+Theorem c14_canonical_form_cb : forall t v, de Cb t v = de Cb t (canon Cb t v).
+Proof. exact canon_parse_cb. Qed.
+Print Assumptions c14_canonical_form_cb.
+
+Theorem c14_same_canon_same_parse : forall t v v', canon Stream t v = canon Stream t v' -> parse t v = parse t v'.
+Proof. exact same_canon_same_parse. Qed.
+Print Assumptions c14_same_canon_same_parse.
+
+(** what the canonical form does: presentations of a byte string, of a number ... *)
+Theorem c14_canon_bytes : forall fl b v, bytes_ok b -> bytes_pres b v -> canon fl TBytes v = json_of_bytes b.
+Proof. exact canon_bytes_pres. Qed.
+Print Assumptions c14_canon_bytes.
+
+Theorem c14_canon_number : forall t n v, fits t n = true -> num_pres n v -> num_canon t v = JInt n.
+Proof. exact num_canon_pres. Qed.
+Print Assumptions c14_canon_number.
+
+(** ... an unknown member (a key that is no field's name and no alias), whatever its value, wherever
+    it stands, of any struct that neither denies unknown fields nor flattens ... *)
+Theorem c14_canon_unknown_member : forall fl fields k v es1 es2,
+  plain_struct false fields = true -> unknown_key fields k = true ->
+  canon fl (TStruct false fields) (JObj (es1 ++ (k, v) :: es2)) = canon fl (TStruct false fields) (JObj (es1 ++ es2)).
+Proof. exact canon_insert_unknown. Qed.
+Print Assumptions c14_canon_unknown_member.
+
+(** ... a member whose own value changes between two documents with the same canonical form (this
+    is how equal canonical forms propagate outwards from any depth) *)
+Theorem c14_canon_member : forall fl fields k i f v v' es1 es2,
+  plain_struct false fields = true ->
+  find_field (struct_canons fl fields) 0 k = Some i -> nth_error fields i = Some f ->
+  field_canon fl f v = field_canon fl f v' ->
+  canon fl (TStruct false fields) (JObj (es1 ++ (k, v) :: es2)) = canon fl (TStruct false fields) (JObj (es1 ++ (k, v') :: es2)).
+Proof. exact canon_member_congr. Qed.
+Print Assumptions c14_canon_member.
+
+(** unknown members are ignored: any struct ... *)
+Theorem c14_unknown_member_ignored : forall fields k v es1 es2,
+  plain_struct false fields = true -> unknown_key fields k = true ->
+  parse (TStruct false fields) (JObj (es1 ++ (k, v) :: es2)) = parse (TStruct false fields) (JObj (es1 ++ es2)).
+Proof. exact unknown_member_ignored. Qed.
+Print Assumptions c14_unknown_member_ignored.
+
+(** ... in particular all 19 structs of the crate's WebAuthn JSON as they are defined now (request
+    options, the dictionaries nested in them, responses, both credential types): none denies unknown
+    fields ([all_structs_plain], by computation on the generated schemas) ... *)
+Theorem c14_schema_unknown_member_ignored : forall t k v es1 es2,
+  In t all_structs -> unknown_key (fields_of t) k = true ->
+  parse t (JObj (es1 ++ (k, v) :: es2)) = parse t (JObj (es1 ++ es2)).
+Proof. exact schema_unknown_member_ignored. Qed.
+Print Assumptions c14_schema_unknown_member_ignored.
+
+(** ... also as entries of leniently read lists (excludeCredentials, allowCredentials, pubKeyCredParams) *)
+Theorem c14_schema_unknown_member_ignored_in_lists : forall t k v es1 es2,
+  In t all_structs -> unknown_key (fields_of t) k = true ->
+  de Cb t (JObj (es1 ++ (k, v) :: es2)) = de Cb t (JObj (es1 ++ es2)).
+Proof. exact schema_unknown_member_ignored_cb. Qed.
+Print Assumptions c14_schema_unknown_member_ignored_in_lists.
+
+(** ... one level down in a nested dictionary (and so on, level by level, by [c14_canon_member]) ... *)
+Theorem c14_unknown_member_ignored_nested : forall fields k i f fields' k' v' a b es1 es2,
+  plain_struct false fields = true ->
+  find_field (struct_canons Stream fields) 0 k = Some i -> nth_error fields i = Some f -> f_dw f = DwNone ->
+  (f_ty f = TStruct false fields' \/ f_ty f = TOpt (TStruct false fields')) ->
+  plain_struct false fields' = true -> unknown_key fields' k' = true ->
+  parse (TStruct false fields) (JObj (es1 ++ (k, JObj (a ++ (k', v') :: b)) :: es2))
+  = parse (TStruct false fields) (JObj (es1 ++ (k, JObj (a ++ b)) :: es2)).
+Proof. exact unknown_member_ignored_nested. Qed.
+Print Assumptions c14_unknown_member_ignored_nested.
+
+(** ... inside an entry of a leniently read list of an enclosing dictionary ... *)
+Theorem c14_unknown_member_ignored_in_list_entry : forall fl fields k i f fields' k' v' a b l1 l2 es1 es2,
+  plain_struct false fields = true ->
+  find_field (struct_canons fl fields) 0 k = Some i -> nth_error fields i = Some f ->
+  (f_dw f = DwIgnoreUnknownOptVec /\ f_ty f = TOpt (TVec (TStruct false fields'))
+   \/ f_dw f = DwIgnoreUnknownVec /\ f_ty f = TVec (TStruct false fields')) ->
+  plain_struct false fields' = true -> unknown_key fields' k' = true ->
+  to_opt (de fl (TStruct false fields) (JObj (es1 ++ (k, JArr (l1 ++ JObj (a ++ (k', v') :: b) :: l2)) :: es2)))
+  = to_opt (de fl (TStruct false fields) (JObj (es1 ++ (k, JArr (l1 ++ JObj (a ++ b) :: l2)) :: es2))).
+Proof. exact unknown_member_ignored_in_list_entry. Qed.
+Print Assumptions c14_unknown_member_ignored_in_list_entry.
+
+(** ... and a parse that succeeds keeps its value (result as it stands, either flavour) *)
+Theorem c14_unknown_member_keeps_value : forall fl fields k v es1 es2 x,
+  plain_struct false fields = true -> unknown_key fields k = true ->
+  de fl (TStruct false fields) (JObj (es1 ++ es2)) = Ok x ->
+  de fl (TStruct false fields) (JObj (es1 ++ (k, v) :: es2)) = Ok x.
+Proof. exact unknown_member_ok_preserved. Qed.
+Print Assumptions c14_unknown_member_keeps_value.
+
+(** unknown enumeration strings.  No enumeration has a catch-all variant ([no_enum_catch_all]), so
+    "unknown" is: no variant's name and no alias ([enum_lookup e s = None]).
+    Under [ignore_unknown] the member takes the type's default ... *)
+Theorem c14_unknown_enum_default : forall fl (f : field) e s,
+  f_flatten f = false -> f_dw f = DwIgnoreUnknown -> f_ty f = TEnum e -> enum_lookup e s = None ->
+  field_parser fl f (JStr s) = Ok (REnum (match e_default e with Some d => d | None => 0 end)).
+Proof. exact ignore_unknown_enum_default. Qed.
+Print Assumptions c14_unknown_enum_default.
+
+(** ... [None] when the member is optional ... *)
+Theorem c14_unknown_enum_none : forall fl (f : field) e s,
+  f_flatten f = false -> f_dw f = DwIgnoreUnknown -> f_ty f = TOpt (TEnum e) -> enum_lookup e s = None ->
+  field_parser fl f (JStr s) = Ok RNone.
+Proof. exact ignore_unknown_enum_none. Qed.
+Print Assumptions c14_unknown_enum_none.
+
+(** ... and in a leniently read list (hints, attestationFormats, transports) the entry is dropped,
+    the other entries are kept in order *)
+Theorem c14_unknown_enum_entry_dropped : forall fl (f : field) e s l1 l2,
+  f_flatten f = false ->
+  (f_dw f = DwIgnoreUnknownOptVec /\ f_ty f = TOpt (TVec (TEnum e)) \/ f_dw f = DwIgnoreUnknownVec /\ f_ty f = TVec (TEnum e)) ->
+  enum_lookup e s = None ->
+  field_parser fl f (JArr (l1 ++ JStr s :: l2)) = field_parser fl f (JArr (l1 ++ l2)).
+Proof. exact lenient_list_drops_unknown_enum. Qed.
+Print Assumptions c14_unknown_enum_entry_dropped.
+
+(** any entry that does not deserialise is dropped ... *)
+Theorem c14_lenient_list_drops : forall p x l1 l2, (forall y, p x <> Ok y) -> keep_ok p (l1 ++ x :: l2) = keep_ok p (l1 ++ l2).
+Proof. exact keep_ok_drop. Qed.
+Print Assumptions c14_lenient_list_drops.
+
+(** ... e.g. a credential parameter whose algorithm (in any presentation) is not a registered one *)
+Theorem c14_unknown_alg_entry_dropped : forall v es1 es2 l1 l2,
+  (forall z, string_or_num NI64 v = Some z -> alg_known z = false) ->
+  keep_ok (de Cb r_PublicKeyCredentialParameters) (l1 ++ JObj (es1 ++ (str_alg, v) :: es2) :: l2)
+  = keep_ok (de Cb r_PublicKeyCredentialParameters) (l1 ++ l2).
+Proof. exact unknown_alg_entry_dropped. Qed.
+Print Assumptions c14_unknown_alg_entry_dropped.
+
+(** * (4) Emitted credentials parse back *)
+
+(** every schema satisfying the computable condition [rt_ok] (member names lead back to their own
+    field, skipped members have a default, enumeration names are distinct, no [Option<Option<_>>],
+    no flattening), every value of the type ([wt]: bytes below 256, integers in range, registered
+    algorithms, existing variants) *)
+Theorem c14_round_trip : forall t x, rt_ok t = true -> wt t x = true -> parse t (ser t x) = Some x.
+Proof. exact emit_parse_round_trip. Qed.
+Print Assumptions c14_round_trip.
+
+(** the two credential types the client emits, with their responses and client extension results *)
+Theorem c14_created_credential_round_trip : forall c,
+  wt r_CreatedPublicKeyCredential c = true -> parse r_CreatedPublicKeyCredential (ser r_CreatedPublicKeyCredential c) = Some c.
+Proof. exact created_credential_round_trip. Qed.
+Print Assumptions c14_created_credential_round_trip.
+
+Theorem c14_authenticated_credential_round_trip : forall c,
+  wt r_AuthenticatedPublicKeyCredential c = true ->
+  parse r_AuthenticatedPublicKeyCredential (ser r_AuthenticatedPublicKeyCredential c) = Some c.
+Proof. exact authenticated_credential_round_trip. Qed.
+Print Assumptions c14_authenticated_credential_round_trip.
+
+(** * (5) base64url *)
 Theorem c14_b64url_round : forall b, bytes_ok b -> b64url_decode (b64url_encode b) = Some b.
 Proof. exact b64url_round. Qed.
 Print Assumptions c14_b64url_round.
+
+Theorem c14_b64url_unpadded_url_alphabet : forall b, bytes_ok b ->
+  ~ In 61 (b64url_encode b) /\ Forall (fun c => b64_alpha true c = true) (b64url_encode b).
+Proof. exact b64url_shape. Qed.
+Print Assumptions c14_b64url_unpadded_url_alphabet.
+
+(** * (6) Client data: member sequence of the serialisation *)
+
+(** [CollectedClientData<E>] for every E: type, challenge, origin, crossOrigin (a boolean, never
+    null, true only for [Some(true)]), then what E serialises to, then the unknown members *)
+Theorem c14_client_data_members : forall E i ch og cross extra unk,
+  ser (s_CollectedClientData E) (RStruct [REnum i; RStr ch; RStr og; cross; extra; RMap unk]) =
+  JObj ([(str_type, JStr (enum_name e_ClientDataType i)); (str_challenge, JStr ch); (str_origin, JStr og);
+         (str_crossOrigin, JBool (truthy cross))]
+        ++ members_of (ser E extra) ++ map (fun kv => (fst kv, ser TJson (snd kv))) unk).
+Proof. exact client_data_members. Qed.
+Print Assumptions c14_client_data_members.
+
+(** E = serde_json::Map: extras then unknown members, each in their original order *)
+Theorem c14_client_data_members_map : forall i ch og cross extra unknown,
+  ser (s_CollectedClientData (TIndexMap TJson)) (RStruct [REnum i; RStr ch; RStr og; cross; rjson_map extra; rjson_map unknown]) =
+  JObj ([(str_type, JStr (enum_name e_ClientDataType i)); (str_challenge, JStr ch); (str_origin, JStr og);
+         (str_crossOrigin, JBool (truthy cross))] ++ extra ++ unknown).
+Proof. exact client_data_members_map. Qed.
+Print Assumptions c14_client_data_members_map.
+
+(** E = () *)
+Theorem c14_client_data_members_unit : forall i ch og cross x unknown,
+  ser (s_CollectedClientData TUnit) (RStruct [REnum i; RStr ch; RStr og; cross; x; rjson_map unknown]) =
+  JObj ([(str_type, JStr (enum_name e_ClientDataType i)); (str_challenge, JStr ch); (str_origin, JStr og);
+         (str_crossOrigin, JBool (truthy cross))] ++ unknown).
+Proof. exact client_data_members_unit. Qed.
+Print Assumptions c14_client_data_members_unit.
+
+(** * Examples: the hypotheses are satisfiable, the generated schemas meet the side conditions *)
+
+Definition k_zzz : bytes := [122; 122; 122].
+Definition s_AQID : bytes := [65; 81; 73; 68].                  (* base64 of 1,2,3 *)
+
+Example c14_ex_schemas_plain : forallb is_plain_struct all_structs = true.
+Proof. exact all_structs_plain. Qed.
+
+Example c14_ex_credentials_rt_ok : rt_ok r_CreatedPublicKeyCredential = true /\ rt_ok r_AuthenticatedPublicKeyCredential = true.
+Proof. exact credentials_rt_ok. Qed.
+
+Example c14_ex_no_catch_all : forallb (fun e => match e_other e with None => true | Some _ => false end) all_enums = true.
+Proof. exact no_enum_catch_all. Qed.
+
+Example c14_ex_unknown_key :
+  unknown_key (fields_of r_PublicKeyCredentialCreationOptions) k_zzz = true
+  /\ unknown_key (fields_of r_PublicKeyCredentialRequestOptions) str_allowList = false      (* an alias is known *)
+  /\ enum_lookup e_UserVerificationRequirement k_zzz = None
+  /\ enum_lookup e_AuthenticatorTransport str_cable = Some 3.                                (* alias of hybrid *)
+Proof. vm_compute. repeat split; reflexivity. Qed.
+
+Example c14_ex_member_fields :
+  find_field (struct_canons Stream (fields_of r_PublicKeyCredentialRequestOptions)) 0 str_challenge = Some 0%nat
+  /\ find_field (struct_canons Stream (fields_of r_PublicKeyCredentialUserEntity)) 0 str_id = Some 0%nat
+  /\ find_field (struct_canons Stream (fields_of r_PublicKeyCredentialCreationOptions)) 0 str_timeout = Some 4%nat.
+Proof. repeat split; reflexivity. Qed.
+
+Example c14_ex_bytes_pres : bytes_pres [1; 2; 3] (JStr s_AQID) /\ num_pres 1800 (JDec 18000 (-1)) /\ num_pres 1800 (JDec 18 2).
+Proof.
+  split; [exact (BP_url [1; 2; 3])|]. split; constructor; vm_compute; reflexivity.
+Qed.
+
+(** the defaults the enumeration members under [ignore_unknown] fall back to *)
+Example c14_ex_defaults :
+  enum_name e_UserVerificationRequirement 1 = str_preferred /\ e_default e_UserVerificationRequirement = Some 1
+  /\ enum_name e_AttestationConveyancePreference 0 = str_none /\ e_default e_AttestationConveyancePreference = Some 0
+  /\ enum_name e_PublicKeyCredentialType 1 = str_unknown /\ e_default e_PublicKeyCredentialType = Some 1.
+Proof. repeat split; reflexivity. Qed.
+
+(** the type strings of client data are the ones the WebAuthn / SPC specifications prescribe *)
+Example c14_ex_client_data_types :
+  enum_name e_ClientDataType 0 = str_webauthn_create /\ enum_name e_ClientDataType 1 = str_webauthn_get
+  /\ enum_name e_ClientDataType 2 = str_payment_get.
+Proof. repeat split; reflexivity. Qed.
+
+(** a credential as the client emits it is a value of its type *)
+Definition ex_assertion : rv :=
+  RStruct [RStr s_AQID; RBytes [1; 2; 3]; REnum 0;
+           RStruct [RBytes [123; 125]; RBytes [0; 255]; RBytes [48; 1]; RSome (RBytes [7]); RNone];
+           RSome (REnum 0);
+           RStruct [RNone; RSome (RStruct [RNone; RSome (RStruct [RBytes [9; 9]; RNone])])]].
+
+Example c14_ex_credential_wt :
+  wt r_AuthenticatedPublicKeyCredential ex_assertion = true
+  /\ parse r_AuthenticatedPublicKeyCredential (ser r_AuthenticatedPublicKeyCredential ex_assertion) = Some ex_assertion.
+Proof. vm_compute. split; reflexivity. Qed.
+
+(** one document in two shapes: every binary member in another presentation, timeout as a string,
+    unknown members at three depths, an unknown transport, an unknown verification requirement, an
+    entry of allowCredentials that does not deserialise: same value *)
+Definition ex_plain : json :=
+  JObj [(str_challenge, JArr [JInt 1; JInt 2; JInt 3]); (str_timeout, JInt 60000); (str_rpId, JStr [97]);
+        (str_allowCredentials,
+         JArr [JObj [(str_type, JStr str_public_key); (str_id, JArr [JInt 251; JInt 255]); (str_transports, JArr [JStr str_usb])]]);
+        (str_userVerification, JStr str_preferred);
+        (str_extensions, JObj [(str_prf, JObj [(str_eval, JObj [(str_first, JArr [JInt 251; JInt 255])])])])].
+
+Definition ex_lenient : json :=
+  JObj [(k_zzz, JArr [JObj []; JNull]); (str_challenge, JStr s_AQID); (str_timeout, JStr [54; 48; 48; 48; 48]);
+        (str_rpId, JStr [97]);
+        (str_allowCredentials,
+         JArr [JObj [(str_type, JStr str_public_key); (k_zzz, JNull); (str_id, JStr [45; 95; 56]);
+                     (str_transports, JArr [JStr k_zzz; JStr str_usb])];
+               JObj [(str_type, JStr str_public_key); (str_id, JInt 5)]]);
+        (str_userVerification, JStr k_zzz);
+        (str_extensions, JObj [(str_prf, JObj [(str_eval, JObj [(str_first, JStr [43; 47; 56; 61]); (k_zzz, JInt 1)])]); (k_zzz, JObj [])])].
+
+Example c14_ex_lenient_document :
+  parse r_PublicKeyCredentialRequestOptions ex_lenient = parse r_PublicKeyCredentialRequestOptions ex_plain
+  /\ parse r_PublicKeyCredentialRequestOptions ex_plain <> None.
+Proof. vm_compute. split; [reflexivity|discriminate]. Qed.
+
+(** A boundary of the leniency, recorded as it is in the code (not within the property: the first
+    document is not a presentation of any option value).  [extensions] of the REQUEST options is read
+    through [ignore_unknown] = [T::deserialize(de).unwrap_or_default()] on serde_json's STREAMING
+    deserialiser: a malformed value is forgiven only if the error is raised when the value has been
+    consumed whole.  ["prf": 5] as the last member of [extensions] is forgiven (extensions = None);
+    the same followed by an unknown member leaves the reader inside the object and the whole
+    document fails.  (Tied to the code by corpus/C14/obs-ext-*.json.) *)
+Example c14_ex_forgiven_error_then_unknown_member :
+  parse r_PublicKeyCredentialRequestOptions
+    (JObj [(str_challenge, JArr []); (str_extensions, JObj [(str_prf, JInt 5)])]) <> None
+  /\ parse r_PublicKeyCredentialRequestOptions
+       (JObj [(str_challenge, JArr []); (str_extensions, JObj [(str_prf, JInt 5); (k_zzz, JInt 1)])]) = None.
+Proof. vm_compute. split; [discriminate|reflexivity]. Qed.
